@@ -381,11 +381,11 @@ static handler_t fcgi_recv_parse_loop(request_st * const r, handler_ctx * const 
 			/* is the header already finished */
 			if (0 == r->resp_body_started) {
 				/* split header from body */
+				/*(not r->tmp_buf: HTTP/2 uses r->tmp_buf to send 1xx
+				 * from within http_response_parse_headers())*/
 				buffer *hdrs = hctx->response;
-				if (NULL == hdrs) {
-					hdrs = r->tmp_buf;
-					buffer_clear(hdrs);
-				}
+				if (NULL == hdrs)
+					hdrs = hctx->response = chunk_buffer_acquire();
 				fastcgi_get_packet_body(hdrs, hctx, &packet);
 				if (HANDLER_GO_ON != http_response_parse_headers(r, &hctx->opts, hdrs)) {
 					hctx->send_content_body = 0;
@@ -393,10 +393,7 @@ static handler_t fcgi_recv_parse_loop(request_st * const r, handler_ctx * const 
 					break;
 				}
 				if (0 == r->resp_body_started) {
-					if (!hctx->response) {
-						hctx->response = chunk_buffer_acquire();
-						buffer_copy_buffer(hctx->response, hdrs);
-					}
+					/*(wait for more response headers)*/
 				}
 				else if (hctx->gw_mode == GW_AUTHORIZER &&
 					 (r->http_status == 0 || r->http_status == 200)) {
